@@ -145,6 +145,9 @@ def run(ctx):
                 else:
                     toks = [fr(x) for x in xs]
                 r = model.ask("tc %d %d %s" % (code, direction, " ".join(toks)))
+                if "results" not in r:
+                    disagreements.append(dict(what="type %s dir %d: the model has no table for type code %d (%s)" % (name, direction, code, str(r)[:120])))
+                    continue
                 for x, got, m in zip(xs, real, r["results"]):
                     counts["model_points"] += 1
                     model_inputs.add((code, direction, x))
